@@ -57,14 +57,6 @@ func init() {
 }
 
 func init() {
-	register(&Property{ID: "XRS", Run: func(c *Ctx) { ruleRESOLVESETS(c) }})
-}
-
-func init() {
-	register(&Property{ID: "XUC", Run: func(c *Ctx) { ruleUNIONCLONE(c) }})
-}
-
-func init() {
 	register(&Property{
 		ID: "C05",
 		Explanation: "Decides structural necessary conditions of 'compressed tables decode to the same actions': GUARD(usedBase): every freshly chosen displacement base in allocator.place reaches a return only through the not-used outcome of usedBase.Get(delta+base), and the base is recorded (two rows with one base decode each other's cells). " +
